@@ -771,13 +771,31 @@ func c05Buckets(r *Report, rule string) {
 				continue
 			}
 			res := p.results()
+			fsP := factSet{}
+			for _, c := range p.conds {
+				fsP.add(c)
+			}
+			if k, _ := P.classifyErr(res[len(res)-1], fsP); k == exitFailure {
+				continue
+			}
 			call := res[0]
 			if call.Op == "res" {
 				call = call.Args[0]
 			}
 			callee := P.calleeOfTerm(call)
 			if callee == nil {
-				bad = "a path of " + shortFn(perEntry) + " does not delegate to a value decoder: " + res[0].String()
+				// a value decoded in place by a package mode from the entry's raw value
+				if _, ok := unify(mustPat("mod(call<invoke:cbor.DecMode.Unmarshal>(%M, $1, iface<*interface{}>(%A)), %A)"), res[0], bindings{}); ok {
+					if len(fsP.matchAll([]factPat{fp(okp("call<invoke:cbor.DecMode.Unmarshal>(%M, $1, iface<*interface{}>(%A))"))}, nil)) > 0 {
+						continue
+					}
+				}
+				if _, ok := unify(mustPat("mod(call<invoke:cbor.DecMode.Unmarshal>(%M, $1, iface<*any>(%A)), %A)"), res[0], bindings{}); ok {
+					if len(fsP.matchAll([]factPat{fp(okp("call<invoke:cbor.DecMode.Unmarshal>(%M, $1, iface<*any>(%A))"))}, nil)) > 0 {
+						continue
+					}
+				}
+				bad = "a path of " + shortFn(perEntry) + " neither delegates to a value decoder nor returns a value decoded by a package mode: " + truncate(res[0].String(), 160)
 				continue
 			}
 			// which label?
